@@ -2,7 +2,7 @@
 
 PROP = dict(
     level="proof",
-    lean_modules=["PopsModel.Props.C15"],
+    lean_modules=["PopsModel.Props.C15", "PopsModel.Props.NonVacuous.Kernels"],
     theorems=["Pops.C15_start_needs_node", "Pops.C15_start_with_node", "Pops.C15_walk_derivation",
               "Pops.C15_stays_on_network", "Pops.C15_cost", "Pops.C15_cost_index", "Pops.C15_jump",
               "Pops.C15_prefers_unvisited", "Pops.C15_terminates", "Pops.C15_teleport_adjacent",
